@@ -38,6 +38,12 @@ def gen_cases(tier, seed):
     cases = []
     for s in meshzoo.gen_mesh_specs(rng, nm, max_sites=250 if tier == "quick" else 800, include_explicit=False):
         cases.append({"layer": "L1", "mesh": s, "ndraw": 5 if tier == "quick" else 20, "seed": int(rng.integers(1 << 30)), "cost": 3})
+    for j in range(2 if tier == "quick" else 8):
+        # structured meshes with exactly zero dual edge lengths (squares split into right triangles): the supercurrent on such an
+        # edge is as covariant as on any other
+        cases.append({"layer": "L1", "mesh": {"kind": "explicit", "base": {"kind": "grid", "nx": int(rng.integers(4, 8)), "ny": int(rng.integers(4, 7))}, "decades": 2,
+                                              "zero_duals": float(rng.choice([0.15, 0.3])), "seed": int(rng.integers(1 << 30))},
+                      "ndraw": 5 if tier == "quick" else 20, "seed": int(rng.integers(1 << 30)), "cost": 3})
     npairs = 4 if tier == "quick" else 60
     for k in range(npairs):
         scr = (k % 4 == 3)
@@ -81,6 +87,20 @@ def gen_cases(tier, seed):
         ang = float(rng.uniform(0, 2 * np.pi))
         c = [Amax * 3.0 * np.cos(ang), Amax * 3.0 * np.sin(ang)]
         cases.append({"layer": "L2", "device": dev, "options": o, "B": B, "c": c, "time_dependent": variant == "seeded_td", "pulse": False, "variant": variant,
+                      "currents": S.current_spec(rng, dev, o, "const" if nt else "none", strength=0.15), "cost": 25})
+    for k in range(2 if tier == "quick" else 6):
+        # the gauge offset is written as a SUM of Parameters (time-dependent potential + constant shift); thermalisation first,
+        # so that the clock restarts and times repeat within one solve()
+        nt = [0, 2][k % 2]
+        dev = zoo.gen_device(rng, n_terminals=nt, n_holes=0, probes=0, size="small", smooth=0, gamma=float(rng.choice([1.0, 10.0])))
+        o = S.base_options(rng, adaptive=False, steps=150)
+        o.update(dt_max=0.02, dt_init=4e-3, solve_time=0.6, terminal_psi=0.0, adaptive=False)
+        sc = S._scales(dev, o)
+        B = 0.3 * sc.Bc2 / sc.fu
+        Amax = B * dev["film"].get("w", 4.0) / 2
+        ang = float(rng.uniform(0, 2 * np.pi))
+        c = [Amax * 3.0 * np.cos(ang), Amax * 3.0 * np.sin(ang)]
+        cases.append({"layer": "L2", "device": dev, "options": o, "B": B, "c": c, "time_dependent": True, "pulse": False, "variant": "parameter_sum", "therm": True,
                       "currents": S.current_spec(rng, dev, o, "const" if nt else "none", strength=0.15), "cost": 25})
     nslow = 2 if tier == "quick" else 12
     for k in range(nslow):
@@ -240,6 +260,11 @@ def _uniform_shifted_td(x, y, z, *, t, B, cx, cy, T, pulse=False, slow=False):
     return np.stack([-f * B * y / 2 + cx, f * B * x / 2 + cy, np.zeros_like(x)], axis=1)
 
 
+def _const_shift(x, y, z, *, cx, cy):
+    x = np.atleast_1d(x)
+    return np.stack([cx + 0 * x, cy + 0 * x, np.zeros_like(x)], axis=1)
+
+
 def _make_closure_potential(B, cx, cy):
     """Static uniform-field potential whose gauge offset lives in a closure (not in the Parameter's kwargs)."""
     def A(x, y, z):
@@ -298,7 +323,10 @@ def _l2(spec):
     else:
         o["dt_init"] = 0.4 * dt_star
         o["dt_max"] = max(o["dt_max"], o["dt_init"])
-        o["solve_time"] = nsteps * o["dt_init"]
+        o["solve_time"] = nsteps * o["dt_init"] - 0.5 * o["dt_init"]
+    o.pop("auto_dt", None)
+    if spec.get("therm"):
+        o["skip_time"] = 0.4 * o["solve_time"]  # thermalisation: the solver's clock runs to skip_time, restarts at 0 and passes the same times again
     T = (0.3 if spec.get("pulse") else 0.5) * spec["options"]["solve_time"]
     runs = []
     seeded = variant in ("seeded_static", "seeded_td")
@@ -323,7 +351,9 @@ def _l2(spec):
                 return {"violations": [], "counters": {"refused_mesh": 1}, "classes": ["refused"], "nontrivial": False}
             raise
     for shift in ((0.0, 0.0), tuple(c)):
-        if variant == "seeded_static":
+        if variant == "parameter_sum":
+            avp = tdgl.Parameter(_uniform_shifted_td, B=float(B), cx=0.0, cy=0.0, T=float(T), pulse=False, slow=False, time_dependent=True) + tdgl.Parameter(_const_shift, cx=float(shift[0]), cy=float(shift[1]))
+        elif variant == "seeded_static":
             avp = tdgl.Parameter(_make_closure_potential(float(B), float(shift[0]), float(shift[1])))  # the offset is held in a closure
         elif spec["time_dependent"]:
             avp = tdgl.Parameter(_uniform_shifted_td, B=float(B), cx=float(shift[0]), cy=float(shift[1]), T=float(T), pulse=bool(spec.get("pulse")), slow=bool(spec.get("slow")), time_dependent=True)
